@@ -761,6 +761,11 @@ def run_utils(ctx, impl, rng, quick, dmax):
         m = rsm(rng, r, c)
         p = rng.choice([1, 2])
         fmt = rng.choice(['csr', 'csr', 'dense'])
+        if _ % 5 == 0 and m['coo']:
+            # narrow integer storage with weights whose SQUARE does not fit the type (defect D38: 64 * 64 = 0 in uint8)
+            st_, lo_, hi_ = [('uint8', 16, 255), ('int8', 12, 127), ('int16', 200, 32767), ('uint16', 300, 65535)][(_ // 5) % 4]
+            m = dict(m, coo=[[i, j, rng.choice([lo_, 4 * lo_, hi_, rng.randint(lo_, hi_)])] for i, j, v in m['coo']], dtype=st_)
+            p = 2
         d = dense_of(m)
         tab = []
         if p == 2:
